@@ -151,6 +151,30 @@ theorem rangeJobs_cells_overlap :
     ∃ p q, p ∈ rangeJobs 0 1 0 1 ∧ q ∈ rangeJobs 0 1 0 1 ∧ p ≠ q ∧ ∃ x, x ∈ cellsOf p ∧ x ∈ cellsOf q :=
   ⟨(0, 1), (1, 0), by decide, by decide, by decide, (0, 1), by decide, by decide⟩
 
+/-- range mode with the deduplicating guard of the proposed repair: for *all* ranges, overlapping or not, no two
+jobs own a common cell -/
+theorem rangeJobsDedup_cells_disjoint (a b c d : Nat) :
+    (rangeJobsDedup a b c d).Pairwise (fun p q => ∀ x, x ∈ cellsOf p → x ∈ cellsOf q → False) := by
+  unfold rangeJobsDedup
+  rw [List.pairwise_flatMap]
+  constructor
+  · intro i _
+    rw [List.pairwise_map]
+    apply List.Pairwise.filter
+    apply List.Pairwise.imp _ List.pairwise_lt_range'
+    intro j j' hjj x hx hy
+    simp only [cellsOf, List.mem_cons, List.mem_nil_iff, or_false] at hx hy
+    rcases hx with rfl | rfl <;> rcases hy with h | h <;> simp only [Prod.mk.injEq] at h <;> omega
+  · apply List.Pairwise.imp_of_mem _ List.pairwise_lt_range'
+    intro i₁ i₂ hm₁ hm₂ hi x hx y hy z hz₁ hz₂
+    simp only [List.mem_range'_1] at hm₁ hm₂
+    simp only [List.mem_map, List.mem_filter, List.mem_range'_1, Bool.not_eq_true', Bool.or_eq_false_iff,
+      Bool.and_eq_false_iff, beq_eq_false_iff_ne, ne_eq, decide_eq_false_iff_not] at hx hy
+    obtain ⟨j₁, ⟨hj₁, hne₁, hg₁⟩, rfl⟩ := hx
+    obtain ⟨j₂, ⟨hj₂, hne₂, hg₂⟩, rfl⟩ := hy
+    simp only [cellsOf, List.mem_cons, List.mem_nil_iff, or_false] at hz₁ hz₂
+    rcases hz₁ with rfl | rfl <;> rcases hz₂ with h | h <;> simp only [Prod.mk.injEq] at h <;> omega
+
 /-! ## the model mirrors the defects of the unchanged `DistMatrix` -/
 
 /-- the discipline of the unchanged `DistMatrix`: the error `return` skips `wg.Done`, and every
